@@ -106,7 +106,23 @@ def install(interp):
             r.scalar_like = True
             r.eshape = tz.Shape(())
             return r
-        raise Unsupported("torch.tensor of a sequence")
+        if isinstance(data, (list, tuple)) and all(isinstance(v, (int, float, bool, SV)) for v in data):
+            vals = [num(v) if not isinstance(v, bool) else z3.BoolVal(v) for v in data]
+            tag = tz.tag_of(dtype) if dtype is not None else ("float" if any(z3.is_real(v) for v in vals) else ("bool" if vals and all(z3.is_bool(v) for v in vals) else "int"))
+            vals = [tz.coerce(v, tag) for v in vals]
+            if not vals:
+                return t_empty(0, dtype=tag)
+
+            def f(t, vals=vals):
+                r = vals[-1]
+                for i in range(len(vals) - 2, -1, -1):
+                    r = z3.If(t == i, vals[i], r)
+                return r
+
+            r = T(f, tag, len(vals), "first", tz.Shape(()))
+            r.pure_time = True
+            return r
+        raise Unsupported("torch.tensor of a nested sequence")
 
     def t_heaviside(x, values):
         v = _t(values)
@@ -130,6 +146,17 @@ def install(interp):
     def t_nan_to_num(x, nan=0.0, posinf=None, neginf=None):
         return x.nan_to_num(nan, posinf, neginf)
 
+    def t_sum(x, dim=None, **kw):
+        """Reduction over the trailing (adaptation) axis only: its value is an uninterpreted constant tied to the
+        summed tensor object (the step contracts never depend on the value of the sum, only on its identity)."""
+        if isinstance(x, T) and x.tlen is not None and x.taxis == "last" and dim == -1:
+            key = getattr(x, "_sum_const", None)
+            if key is None:
+                key = z3.Real(f"sum_last[{x.name}]") if x.dtype == "float" else z3.Int(f"sum_last[{x.name}]")
+                x._sum_const = key
+            return T(key, x.dtype if x.dtype != "bool" else "int", None, None, x.eshape)
+        raise Unsupported("torch.sum over a non-adaptation axis")
+
     def t_no_grad():
         raise Unsupported("torch.no_grad() outside a with statement")
 
@@ -147,7 +174,7 @@ def install(interp):
         mul=lambda a, b: a * b, add=lambda a, b: a + b, sub=lambda a, b: a - b, div=lambda a, b: a / b,
         pow=lambda a, b: a ** b,
         Tensor=E("torch.Tensor"), Size=E("torch.Size"), dtype=E("torch.dtype"), device=E("torch.device"), Generator=E("torch.Generator"),
-        no_grad=t_no_grad,
+        no_grad=t_no_grad, sum=t_sum,
         pi=3.141592653589793,
     )
     for n, d in tz.DT.items():
